@@ -65,6 +65,7 @@ Proof.
   - destruct guarded; [discriminate|discriminate].
   - destruct guarded; [discriminate|discriminate].
   - discriminate.
+  - discriminate.
 Qed.
 
 Corollary site_safe_sound c s :
